@@ -251,9 +251,26 @@ theorem zero_always_due (t : Timer) (t0 now : Nat) (h0 : t.timeout = 0) (hs : t.
     t.timedOut now = true :=
   timedOut_of_zero h0 hs now
 
-/-- … so the first transmit pass (mailbox empty, limiter letting the frame through) hands the
-    due Consecutive Frame out — or ends the message / raises — without any delay. -/
+/-- … so the first transmit pass (mailbox empty, limiter letting the frame through, valid
+    configuration, no exception raised before) hands the due Consecutive Frame out — or ends the
+    message — without any delay, and does not raise. -/
 theorem zero_not_delayed (s : State) (r : Req) (hw : TxWf s) (hs : s.txState = .transmitCf)
+    (h0 : s.timerStmin.timeout = 0) (hp : s.pendingFc = false) (hfc : s.lastFc = none)
+    (ha : s.active = some r) (hd : r.depleted = false) (hl : cfPayloadLen s r ≤ (allowedNow s))
+    (hv : s.cfg.valid = true) (he : s.exc = none) :
+    s.processTx.1.exc = none ∧
+    (s.processTx.1.txState = .idle ∨
+     (∃ msg r', s.processTx.2.1 = some msg ∧ s.processTx.1.active = some r' ∧
+       r'.remaining < r.remaining ∧ r'.id = r.id ∧ r'.size = r.size)) := by
+  have hst : s.timerStmin.start.isSome := (hw.2.2.1 hs).1
+  cases hstart : s.timerStmin.start with
+  | none => simp [hstart] at hst
+  | some t0 =>
+    exact processTx_cf_progress_valid s r hw hs hp hfc ha hd (timedOut_of_zero h0 hstart _) hl hv he
+
+/-- the same without assuming a valid configuration or a clean exception flag: the pass may then
+    also end with the exception flag set -/
+theorem zero_not_delayed_any_cfg (s : State) (r : Req) (hw : TxWf s) (hs : s.txState = .transmitCf)
     (h0 : s.timerStmin.timeout = 0) (hp : s.pendingFc = false) (hfc : s.lastFc = none)
     (ha : s.active = some r) (hd : r.depleted = false) (hl : cfPayloadLen s r ≤ (allowedNow s))
     (hdl : s.txPrefixLen + 2 ≤ s.cfg.txDl) :
@@ -265,6 +282,9 @@ theorem zero_not_delayed (s : State) (r : Req) (hw : TxWf s) (hs : s.txState = .
   | none => simp [hstart] at hst
   | some t0 =>
     exact processTx_cf_progress s r hw hs hp hfc ha hd (timedOut_of_zero h0 hstart _) hl hdl
+
+example : ex2z.processTx.1.txState = .transmitCf ∧ ex2z.processTx.1.timerStmin.timeout = 0 ∧
+    ex2z.processTx.1.cfg.valid = true ∧ ex2z.processTx.1.exc = none := by decide
 
 /-- the same pass that honours a ContinueToSend with STmin = 0 already sends the first frame of
     the block (concrete run) -/
@@ -304,3 +324,4 @@ end Isotp.C08
 #print axioms Isotp.C08.sepInv_process
 #print axioms Isotp.C08.zero_always_due
 #print axioms Isotp.C08.zero_not_delayed
+#print axioms Isotp.C08.zero_not_delayed_any_cfg
